@@ -283,12 +283,14 @@ Definition mk_geom1 (N C W : Z) (q : geo1) : geom1 :=
 Definition out_shape2 (Co : Z) g : option (Z * Z * Z * Z) := if accepts2 g then Some (gN g, Co, oH g, oW g) else None.
 Definition out_shape1 (Co : Z) g : option (Z * Z * Z) := if accepts1 g then Some (N1 g, Co, o1 g) else None.
 Definition unfold_shape g : option (Z * Z * Z) := if accepts2 g then Some (gN g, gC g * kH g * kW g, oH g * oW g) else None.
-(* col2im_fast in fold mode with output_size = (H, W):  N, R, L = a.shape;  C = R // (kH*kW);
-   np.moveaxis(a, 2, 0).reshape(lH, lW, N, C, kH, kW) raises unless the sizes agree *)
+(* col2im_fast in fold mode with output_size = (H, W):  N, R, L = a.shape;  C = R // (kH*kW);  then
+   _check_fold_input(a.shape, (N, C, H, W), ...) raises ValueError unless lH, lW >= 1 and a.shape = (N, C*kH*kW, lH*lW)
+   (since the fix "fold / col2im (fold mode) validate the shape of their argument"; before it only the element counts had to
+   agree for np.reshape(lH, lW, N, C, kH, kW) to succeed) *)
 Definition fold_geom (N R L H W : Z) (q : geo2) : geom := mk_geom N (R / (fst (g_k q) * snd (g_k q))) H W q.
 Definition fold_accepts (N R L H W : Z) (q : geo2) : bool :=
   let g := fold_geom N R L H W q in
-  (0 <? lH g) && (0 <? lW g) && (N * R * L =? lH g * lW g * N * gC g * kH g * kW g).
+  (1 <=? lH g) && (1 <=? lW g) && (R =? gC g * kH g * kW g) && (L =? lH g * lW g).
 
 (* the functional wrappers: rank checks of F.max_pool*/avg_pool*/unfold/fold, shape requirements of the conv kernels
    (C_out, C_in, kH, kW = weight.shape unpacks a rank-4 weight only; extract_windows wants rank 3 or 4 and the kernel
